@@ -139,5 +139,13 @@ FileCoversRecord == fileLen >= WrittenLen \/ (RecLen = 0 /\ fileLen = 9)
 
 Done == ops = MaxOps
 ExportBehaviour == Done => PrintT(<<"REPLAY", ToJson([steps |-> hist])>>)
+\* ---- thin cases: exactly ONE write of the file between two restarts (the first thing a restarted node does is grant a
+\* vote, learn an address, roll its log ... and then it restarts again).  Write positions that are kept across calls, and
+\* anything else a process sets up while it reads the file at start, show in this shape and are healed by a second write.
+\* Exported from the COMPLETE graph of all sequences of length 4 (GEN_RaftMeta_single.cfg).
+ThinSingleWrite ==
+    /\ Len(hist) = 4
+    /\ hist[1].op # "reopen" /\ hist[2].op = "reopen" /\ hist[3].op # "reopen" /\ hist[4].op = "reopen"
+ExportThinSingle == ThinSingleWrite => PrintT(<<"REPLAY", ToJson([steps |-> hist])>>)
 View == <<term, vote, members, after, addrs, nlogs, nsnaps, fileLen>>
 =============================================================================
